@@ -1,7 +1,8 @@
 ---------------------------- MODULE HBond ----------------------------
 (* Property C14: reported hydrogen bonds are exactly those meeting the stated criteria.
    Part 1 -- which donor-hydrogen...acceptor triplets exist: N-H and O-H pairs bonded in the topology, N/O acceptors,
-             water and side-chain filters applied to every participating atom, donor = acceptor removed.
+             water and side-chain filters applied to every participating atom (donor, hydrogen and acceptor each on its own: the hydrogen of
+             an N-terminal amine is a side-chain atom while its nitrogen is a backbone atom), donor = acceptor removed.
    Part 2 -- the geometric decisions on an integer lattice (unit 0.0125 nm, so 0.25 nm = 20 units):
              Baker-Hubbard:  present  <=>  d2(H,A) < 400  /\  cos(angle D-H...A) < -1/2   (strict, law-of-cosines form)
                              reported <=>  #frames present > freq * #frames
@@ -18,15 +19,18 @@ MAtoms == << [el |-> "N", water |-> FALSE, side |-> FALSE], [el |-> "H", water |
              [el |-> "N", water |-> FALSE, side |-> TRUE],  [el |-> "H", water |-> FALSE, side |-> TRUE],       \* 7-8 side-chain N-H
              [el |-> "O", water |-> TRUE,  side |-> FALSE], [el |-> "H", water |-> TRUE,  side |-> FALSE],      \* 9-10 water O-H
              [el |-> "S", water |-> FALSE, side |-> TRUE],  [el |-> "H", water |-> FALSE, side |-> TRUE],       \* 11-12 S-H: not a donor
-             [el |-> "N", water |-> FALSE, side |-> FALSE] >>                                                      \* 13 bare N acceptor
-MBonds == { <<1,2>>, <<3,4>>, <<6,5>>, <<7,8>>, <<9,10>>, <<11,12>>, <<1,3>> }     \* note <<6,5>>: hydrogen listed first
+             [el |-> "N", water |-> FALSE, side |-> FALSE],                                                         \* 13 bare N acceptor
+             [el |-> "H", water |-> FALSE, side |-> TRUE],                                                          \* 14 N-terminal amine hydrogen (H2) on backbone N 1:
+                                                                                                                    \*    the hydrogen counts as side chain, its nitrogen does not
+             [el |-> "H", water |-> FALSE, side |-> FALSE] >>                                                       \* 15 hydrogen named like a backbone atom on side-chain N 7
+MBonds == { <<1,2>>, <<3,4>>, <<6,5>>, <<7,8>>, <<9,10>>, <<11,12>>, <<1,3>>, <<1,14>>, <<15,7>> }     \* note <<6,5>>, <<15,7>>: hydrogen listed first
 Can(a, xw, sc) == ~(xw /\ MAtoms[a].water) /\ ~(sc /\ ~MAtoms[a].side)
 Donors(xw, sc) == { dh \in (1..Len(MAtoms)) \X (1..Len(MAtoms)) :
                       /\ (<<dh[1], dh[2]>> \in MBonds \/ <<dh[2], dh[1]>> \in MBonds)
                       /\ MAtoms[dh[1]].el \in {"N", "O"} /\ MAtoms[dh[2]].el = "H"
                       /\ Can(dh[1], xw, sc) /\ Can(dh[2], xw, sc) }
 Acceptors(xw, sc) == { a \in 1..Len(MAtoms) : MAtoms[a].el \in {"N", "O"} /\ Can(a, xw, sc) }
-Triplets(xw, sc) == { <<dh[1], dh[2], a>> : dh \in Donors(xw, sc), a \in Acceptors(xw, sc) } \ { t \in (1..13) \X (1..13) \X (1..13) : t[1] = t[3] }
+Triplets(xw, sc) == { <<dh[1], dh[2], a>> : dh \in Donors(xw, sc), a \in Acceptors(xw, sc) } \ { t \in (1..Len(MAtoms)) \X (1..Len(MAtoms)) \X (1..Len(MAtoms)) : t[1] = t[3] }
 \* ---------------- Part 2: geometry -------------------------------------------------------------
 \* Baker-Hubbard on squared distances a2 = |DH|^2, b2 = |HA|^2, c2 = |AD|^2 :  cos = (a2 + b2 - c2) / (2ab) < -1/2  <=>  c2 - a2 - b2 > ab
 BHTie(a2, b2, c2) == b2 = 400 \/ (c2 - a2 - b2 > 0 /\ (c2 - a2 - b2) * (c2 - a2 - b2) = a2 * b2)
